@@ -80,9 +80,16 @@ EArgs(es, j, acc, s) ==
     IF j > Len(es) THEN Val(s, TupV(acc))
     ELSE LET r == E(es[j], s) IN IF ~Running(r) THEN r ELSE EArgs(es, j + 1, Append(acc, r.v), r)
 
+\* TLC integers are 32 bit: results that could leave the range make the run "unsupported" (skipped), never a tool error
+Abs(n) == IF n < 0 THEN 0 - n ELSE n
+Big(n) == Abs(n) > 100000000
+PowOK(a, b) == b <= 1 \/ Abs(a) <= 1 \/ (Abs(a) <= 2 /\ b <= 29) \/ (Abs(a) <= 10 /\ b <= 9) \/ (Abs(a) <= 60 /\ b <= 5) \/ (Abs(a) <= 1000 /\ b <= 3) \/ (Abs(a) <= 30000 /\ b <= 2)
 BinOp(op, a, b, s) ==
     CASE op \in {"+", "-", "*", "//", "mod", "^", "<", "<=", ">", ">="} /\ a.t = "int" /\ b.t = "int" ->
-           (CASE op = "+" -> Val(s, IntV(a.v + b.v)) [] op = "-" -> Val(s, IntV(a.v - b.v)) [] op = "*" -> Val(s, IntV(a.v * b.v))
+           (CASE Big(a.v) \/ Big(b.v) -> Bad(s, "unsupported:big-number")
+              [] op = "*" /\ (Abs(a.v) > 30000 \/ Abs(b.v) > 30000) -> Bad(s, "unsupported:big-number")
+              [] op = "^" /\ b.v >= 0 /\ ~PowOK(a.v, b.v) -> Bad(s, "unsupported:big-number")
+              [] op = "+" -> Val(s, IntV(a.v + b.v)) [] op = "-" -> Val(s, IntV(a.v - b.v)) [] op = "*" -> Val(s, IntV(a.v * b.v))
               [] op = "//" -> IF b.v = 0 THEN [s EXCEPT !.st = "exc", !.v = StrV("ZeroDivisionError")] ELSE Val(s, IntV(FloorDiv(a.v, b.v)))
               [] op = "mod" -> IF b.v = 0 THEN [s EXCEPT !.st = "exc", !.v = StrV("ZeroDivisionError")] ELSE Val(s, IntV(PyMod(a.v, b.v)))
               [] op = "^" -> IF b.v < 0 THEN Bad(s, "unsupported:negative-exponent") ELSE Val(s, IntV(Power(a.v, b.v)))
